@@ -219,6 +219,24 @@ impl Generation {
     }
 }
 
+/// Verification state of a heap: its identity and, for a walking `Gc`, the graph being recorded
+#[cfg(gluon_verif)]
+#[derive(Debug)]
+pub(crate) struct GcVerif {
+    pub(crate) heap_id: usize,
+    pub(crate) visit: Option<Box<crate::verif::Graph>>,
+}
+
+#[cfg(gluon_verif)]
+impl Default for GcVerif {
+    fn default() -> Self {
+        GcVerif {
+            heap_id: crate::verif::next_heap_id(),
+            visit: None,
+        }
+    }
+}
+
 /// A mark and sweep garbage collector.
 #[derive(Debug)]
 #[cfg_attr(feature = "serde_derive", derive(DeserializeState, SerializeState))]
@@ -269,6 +287,9 @@ pub struct Gc {
     /// only refer to each other through some reference or channel allocated in generation 0 (and
     /// if they do interact with eachother this means the values are cloned into generation 0).
     generation: Generation,
+    #[cfg(gluon_verif)]
+    #[cfg_attr(feature = "serde_derive", serde(skip))]
+    pub(crate) verif: GcVerif,
 }
 
 impl Drop for Gc {
@@ -348,6 +369,8 @@ struct TypeInfo {
     tag: Option<InternedStr>,
     fields: FnvMap<InternedStr, VmIndex>,
     fields_key: Arc<[InternedStr]>,
+    #[cfg(gluon_verif)]
+    heap_id: usize,
 }
 
 #[derive(Debug)]
@@ -356,6 +379,12 @@ struct GcHeader {
     marked: Cell<bool>,
     value_size: usize,
     type_info: *const TypeInfo,
+    #[cfg(gluon_verif)]
+    freed: Cell<bool>,
+    #[cfg(gluon_verif)]
+    heap_id: usize,
+    #[cfg(gluon_verif)]
+    generation_copy: i32,
 }
 
 struct AllocPtr {
@@ -377,6 +406,12 @@ impl AllocPtr {
                         type_info: type_info,
                         value_size: value_size,
                         marked: Cell::new(false),
+                        #[cfg(gluon_verif)]
+                        freed: Cell::new(false),
+                        #[cfg(gluon_verif)]
+                        heap_id: (*type_info).heap_id,
+                        #[cfg(gluon_verif)]
+                        generation_copy: (*type_info).generation.0,
                     },
                 );
                 AllocPtr { ptr }
@@ -408,6 +443,15 @@ impl Drop for AllocPtr {
             }
             let size = self.size();
             ((*self.type_info).drop)(self.value());
+            #[cfg(gluon_verif)]
+            if crate::verif::quarantine() {
+                // Keep the block: flag it, poison the value and leak it so that a dangling pointer
+                // is detectable instead of silently reading reused memory
+                (*self.ptr).freed.set(true);
+                let value_size = self.value_size;
+                ptr::write_bytes(self.value() as *mut u8, 0xDD, value_size);
+                return;
+            }
             ptr::read(&*self.ptr);
             deallocate(self.ptr as *mut u8, size);
         }
@@ -1054,6 +1098,16 @@ where
         // Anything inside a `GcPtr` is implicitly rooted by the pointer itself being rooted
     }
     fn trace(&self, gc: &mut Gc) {
+        #[cfg(gluon_verif)]
+        if gc.verif.visit.is_some() {
+            if !gc.mark(self) {
+                let addr = self.0.as_ptr() as *const () as usize;
+                gc.verif.visit.as_mut().unwrap().enter(addr);
+                (**self).trace(gc);
+                gc.verif.visit.as_mut().unwrap().leave();
+            }
+            return;
+        }
         if !gc.mark(self) {
             // Continue traversing if this ptr was not already marked
             (**self).trace(gc);
@@ -1073,6 +1127,8 @@ impl Gc {
             record_infos: FnvMap::default(),
             tag_infos: FnvMap::default(),
             generation: generation,
+            #[cfg(gluon_verif)]
+            verif: GcVerif::default(),
         }
     }
 
@@ -1089,6 +1145,12 @@ impl Gc {
     }
 
     pub fn new_child_gc(&self) -> Gc {
+        #[cfg(gluon_verif)]
+        if true {
+            let gc = Gc::new(self.generation.next(), self.memory_limit);
+            crate::verif::heap_child(self.verif.heap_id, gc.verif.heap_id);
+            return gc;
+        }
         Gc::new(self.generation.next(), self.memory_limit)
     }
 
@@ -1145,6 +1207,11 @@ impl Gc {
         let size = def.size();
         let needed = self.allocated_memory.saturating_add(size);
         if needed >= self.memory_limit {
+            #[cfg(gluon_verif)]
+            crate::verif::emit(format_args!(
+                "\"ev\":\"oom\",\"heap\":{},\"size\":{},\"allocated\":{},\"limit\":{}",
+                self.verif.heap_id, size, self.allocated_memory, self.memory_limit
+            ));
             return Err(Error::OutOfMemory {
                 limit: self.memory_limit,
                 needed: needed,
@@ -1197,6 +1264,8 @@ impl Gc {
                                     .collect()
                             },
                             fields_key: owned_fields,
+                            #[cfg(gluon_verif)]
+                            heap_id: self.verif.heap_id,
                         }))
                 }
             },
@@ -1209,6 +1278,8 @@ impl Gc {
                         tag: Some(unsafe { tag.clone_unrooted() }),
                         fields: FnvMap::default(),
                         fields_key: Arc::from(Vec::new()),
+                        #[cfg(gluon_verif)]
+                        heap_id: self.verif.heap_id,
                     })),
                 },
                 None => match self.type_infos.entry(type_id) {
@@ -1219,6 +1290,8 @@ impl Gc {
                         tag: None,
                         fields: FnvMap::default(),
                         fields_key: Arc::from(Vec::new()),
+                        #[cfg(gluon_verif)]
+                        heap_id: self.verif.heap_id,
                     })),
                 },
             },
@@ -1246,6 +1319,17 @@ impl Gc {
         let mut ptr = AllocPtr::new::<D::Value>(type_info, size);
         ptr.next = self.values.take();
         self.allocated_memory += ptr.size();
+        #[cfg(gluon_verif)]
+        if crate::verif::events_on() {
+            crate::verif::emit(format_args!(
+                "\"ev\":\"alloc\",\"heap\":{},\"size\":{},\"total\":{},\"allocated\":{},\"limit\":{}",
+                self.verif.heap_id,
+                size,
+                ptr.size(),
+                self.allocated_memory,
+                if self.memory_limit > i32::MAX as usize { -1 } else { self.memory_limit as i64 }
+            ));
+        }
         unsafe {
             let p: *mut D::Value = D::Value::make_ptr(&def, ptr.value());
             let ret: *const D::Value = &*def.initialize(WriteOnly::new(p));
@@ -1264,6 +1348,11 @@ impl Gc {
         R: Trace + CollectScope,
     {
         unsafe {
+            #[cfg(gluon_verif)]
+            if crate::verif::stress_tick() {
+                self.collect(roots);
+                return true;
+            }
             if self.allocated_memory >= self.collect_limit {
                 self.collect(roots);
                 true
@@ -1281,10 +1370,20 @@ impl Gc {
     {
         unsafe {
             info!("Start collect {:?}", self.generation);
+            #[cfg(gluon_verif)]
+            crate::verif::emit(format_args!(
+                "\"ev\":\"collect_begin\",\"heap\":{},\"allocated\":{}",
+                self.verif.heap_id, self.allocated_memory
+            ));
             roots.scope(self, |self_| {
                 roots.trace(self_);
                 self_.sweep();
                 self_.collect_limit = 2 * self_.allocated_memory;
+                #[cfg(gluon_verif)]
+                crate::verif::emit(format_args!(
+                    "\"ev\":\"collect_end\",\"heap\":{},\"allocated\":{}",
+                    self_.verif.heap_id, self_.allocated_memory
+                ));
             })
         }
     }
@@ -1292,6 +1391,10 @@ impl Gc {
     /// Marks the GcPtr
     /// Returns true if the pointer was already marked
     pub fn mark<T: ?Sized>(&mut self, value: &GcPtr<T>) -> bool {
+        #[cfg(gluon_verif)]
+        if self.verif.visit.is_some() {
+            return self.verif_visit(value);
+        }
         let header = value.header();
         // We only need to mark and trace values from this garbage collectors generation
         if header.generation().is_parent_of(self.generation()) || header.marked.get() {
@@ -1360,9 +1463,75 @@ impl Gc {
     fn free(&mut self, header: Option<AllocPtr>) {
         if let Some(ref ptr) = header {
             self.allocated_memory -= ptr.size();
+            #[cfg(gluon_verif)]
+            if crate::verif::events_on() {
+                crate::verif::emit(format_args!(
+                    "\"ev\":\"free\",\"heap\":{},\"total\":{},\"allocated\":{}",
+                    self.verif.heap_id,
+                    ptr.size(),
+                    self.allocated_memory
+                ));
+            }
         }
         debug!("FREE: {:?}", header);
         drop(header);
+    }
+}
+
+#[cfg(gluon_verif)]
+impl Gc {
+    /// Identity of this heap
+    pub fn verif_heap_id(&self) -> usize {
+        self.verif.heap_id
+    }
+
+    pub fn verif_memory_limit(&self) -> usize {
+        self.memory_limit
+    }
+
+    pub fn verif_collect_limit(&self) -> usize {
+        self.collect_limit
+    }
+
+    /// A `Gc` which owns nothing and records what `Trace` reaches instead of marking
+    pub fn verif_visitor(include_globals: bool) -> Gc {
+        let mut gc = Gc::new(Generation(if include_globals { 0 } else { 1 }), 0);
+        gc.verif.visit = Some(Box::default());
+        gc
+    }
+
+    pub fn verif_take_graph(&mut self) -> crate::verif::Graph {
+        *self.verif.visit.take().unwrap_or_default()
+    }
+
+    fn verif_visit<T: ?Sized>(&mut self, value: &GcPtr<T>) -> bool {
+        let header = value.header();
+        let node = crate::verif::Node {
+            addr: value.0.as_ptr() as *const () as usize,
+            heap: header.heap_id,
+            generation: header.generation_copy,
+            size: header.value_size,
+            freed: header.freed.get(),
+            type_name: std::any::type_name::<T>(),
+        };
+        self.verif.visit.as_mut().unwrap().visit(node)
+    }
+}
+
+#[cfg(gluon_verif)]
+impl<T: ?Sized> GcPtr<T> {
+    /// Identity of the heap which allocated this object
+    pub fn verif_heap_id(&self) -> usize {
+        self.header().heap_id
+    }
+
+    /// Whether the object has been reclaimed (only meaningful with quarantine on)
+    pub fn verif_freed(&self) -> bool {
+        self.header().freed.get()
+    }
+
+    pub fn verif_addr(&self) -> usize {
+        self.0.as_ptr() as *const () as usize
     }
 }
 
